@@ -27,7 +27,10 @@ IsInst(W, o, T) == T \in Supers(W.objs[o].cls)
 
 NVars(q) == Len(q.vars)
 NSlots(q) == Len(q.vars) + Len(q.flats)
+\* slots that are not enumerated by the query itself: variables quantified or aggregated inside the condition, and
+\* flattened expressions that occur only under an aggregation
 BoundSet(q) == {q.bound[i] : i \in 1..Len(q.bound)}
+               \cup (IF "boundflats" \in DOMAIN q THEN {Len(q.vars) + q.boundflats[i] : i \in 1..Len(q.boundflats)} ELSE {})
 
 \* ---- user-level methods and predicates (mirrors harness/world.py) ----
 Method(m, recv, arg, W) ==
@@ -148,7 +151,10 @@ FieldsHold(q, env, W) ==
      IN i \in BoundSet(q) \/ PyEq(W.objs[env[i].v].f[fc.f], Val(fc.e, env, q, W))
 
 EnvSeq(q, W) == Extend(q, W, 1, <<>>, BoundSet(q))
-SatSeq(q, W) == SelectSeq(EnvSeq(q, W), LAMBDA env : Holds(q.cond, env, q, W) /\ FieldsHold(q, env, W))
+\* the condition a query stands for: not_ applied to the descriptor itself - not_(entity(x, c1, c2)) - negates the
+\* conjunction of the descriptor's conditions
+TopCond(q) == IF "notdesc" \in DOMAIN q /\ q.notdesc THEN [k |-> "not", c |-> q.cond, form |-> "fn"] ELSE q.cond
+SatSeq(q, W) == SelectSeq(EnvSeq(q, W), LAMBDA env : Holds(TopCond(q), env, q, W) /\ FieldsHold(q, env, W))
 RowOf(q, W, env) == [k \in 1..Len(q.sel) |-> Val(q.sel[k], env, q, W)]
 \* the rows of the query, one per satisfying assignment, in domain order
 RowSeq(q, W) == LET s == SatSeq(q, W) IN [i \in 1..Len(s) |-> RowOf(q, W, s[i])]
